@@ -28,6 +28,21 @@ def main():
         ck.e2('core-%s-1x2' % measure, h_core.make(dict(
             entry='set_sim_join', measure=measure, nl=1, nr=2, k=3, thresholds=thr,
             comp_ops=['>=', '>', '='], props=P)), bounds=dict(rows='1x2', k=3, thresholds=thr))
+    if not quick:
+        for measure in ('JACCARD', 'COSINE', 'DICE'):
+            ck.e2('core-%s-2x2' % measure, h_core.make(dict(
+                entry='set_sim_join', measure=measure, nl=2, nr=2, k=2, thresholds=thr,
+                comp_ops=['>=', '>', '='], props=P)), bounds=dict(rows='2x2', k=2, thresholds=thr))
+            ck.e2('core-%s-1x3' % measure, h_core.make(dict(
+                entry='set_sim_join', measure=measure, nl=1, nr=3, k=3, thresholds=[0.5, 0.8],
+                comp_ops=['>='], props=P)), bounds=dict(rows='1x3', k=3))
+            ck.e2('core-contract-%s' % measure, h_core.make(dict(
+                entry='set_sim_join', measure=measure, nl=1, nr=2, k=3, kernel='contract',
+                comp_ops=['>=', '>', '='], props=P)), bounds=dict(rows='1x2', k=3, threshold='symbolic, kernel under K'))
+    else:
+        ck.e2('core-contract-JACCARD', h_core.make(dict(
+            entry='set_sim_join', measure='JACCARD', nl=1, nr=2, k=2, kernel='contract',
+            comp_ops=['>=', '>', '='], props=P)), bounds=dict(rows='1x2', k=2, threshold='symbolic, kernel under K'))
     ck.e2('core-OC-1x2', h_core.make(dict(entry='oc_split', measure='OVERLAP_COEFFICIENT', nl=1, nr=2,
                                           k=3, thresholds=[0.5, 0.67, 1.0], comp_ops=['>=', '>', '='],
                                           props=P)), bounds=dict(rows='1x2', k=3))
